@@ -617,6 +617,10 @@ func (env *Env) evalCall(x *ECall) Term {
 		a := env.Eval(x.Args[0])
 		fv.decls.Add(1, "pv_linePrefixed", "(declare-fun pv_linePrefixed (pv_Str) Bool)")
 		return Term{S: fmt.Sprintf("(pv_linePrefixed %s)", a.S), Sort: SBool}
+	case "rvzero":
+		// the zero reflect.Value (what the composite literal reflect.Value{} evaluates to)
+		fv.decls.Add(1, "pv_zero_pv_RV", "(declare-const pv_zero_pv_RV pv_RV)")
+		return Term{S: "pv_zero_pv_RV", Sort: SRV}
 	case "trusted":
 		a := env.Eval(x.Args[0])
 		fv.decls.Add(1, "pv_trusted", "(declare-fun pv_trusted (pv_Str) Bool)\n(assert (pv_trusted pv_empty))")
